@@ -818,6 +818,10 @@ struct HashMgrSim : Sim {
                         execute_long(p, e, r);
                         return;
                 }
+                if (p.get("mode") == 3) {
+                        execute_endure(p, e, r);
+                        return;
+                }
                 St s;
                 s.d = &g_algos[p.get("algo") % A_N];
                 s.f = &s.d->fams[p.get("family") % s.d->fams.size()];
@@ -907,6 +911,8 @@ struct HashMgrSim : Sim {
         }
 
         void execute_long(const Plan &p, Env &e, RunResult &r);
+        void execute_endure(const Plan &p, Env &e, RunResult &r);
+        Plan generate_endure(uint64_t seed, uint64_t run_index);
 };
 
 // ====================================================================== C15 long-stream workload
@@ -990,7 +996,7 @@ RefHash long_reference(Algo a, uint64_t goal)
 std::vector<std::pair<int, uint64_t>> long_reference_keys()
 {
         std::vector<std::pair<int, uint64_t>> v;
-        static const uint64_t thr[4] = { 1ull << 29, 1ull << 30, 1ull << 32, (1ull << 32) + (1ull << 29) };
+        static const uint64_t thr[5] = { 1ull << 28, 1ull << 29, 1ull << 30, 1ull << 32, (1ull << 32) + (1ull << 29) };
         for (int a = 0; a < A_N; a++)
                 for (uint64_t t : thr)
                         v.emplace_back(a, t + 3 * g_algos[a].block + 17);
@@ -1256,6 +1262,126 @@ void HashMgrSim::execute_long(const Plan &p, Env &e, RunResult &r)
         e.check_mem_all("end of run");
 }
 
+// ---------------------------------------------------------------------- endurance: one long-lived manager
+// One manager, never more than two jobs in flight (most lanes stay idle), tens of GiB hashed through the flush path as a sequence of
+// 2^28-byte ENTIRE jobs of the periodic stream, each compared with the cached reference. Whatever a manager accumulates over its
+// lifetime (lane-length words of idle lanes that are not refreshed, counters that only ever grow) shows up here and nowhere else.
+Plan HashMgrSim::generate_endure(uint64_t seed, uint64_t run_index)
+{
+        Rng g(seed, "plan-endure");
+        Plan p;
+        p.cfg["mode"] = 3;
+        std::vector<std::pair<int, int>> pairs;
+        for (int a = 0; a < A_N; a++)
+                for (size_t f = 0; f < g_algos[a].fams.size(); f++)
+                        pairs.emplace_back(a, (int) f);
+        auto pr = pairs[run_index % pairs.size()];
+        const AlgoDesc &d = g_algos[pr.first];
+        p.cfg["algo"] = pr.first;
+        p.cfg["family"] = pr.second;
+        p.cfg["api"] = g.chance(1, 3) ? API_ISAL : API_FAMILY;
+        // lane-length words are (blocks << k | lane) in 32 bits: 2^28 blocks are 16 GiB of 64-byte blocks, 32 GiB of 128-byte blocks
+        p.cfg["endure_gib"] = d.fams[pr.second].lanes >= 4 ? (d.block == 128 ? 36 : 20) : 1;
+        p.cfg["two_in_flight"] = (int64_t) g.below(2);
+        Op o;
+        o.kind = OP_LONG;
+        p.ops.push_back(o);
+        return p;
+}
+
+void HashMgrSim::execute_endure(const Plan &p, Env &e, RunResult &r)
+{
+        build_window();
+        St s;
+        s.d = &g_algos[p.get("algo") % A_N];
+        s.f = &s.d->fams[p.get("family") % s.d->fams.size()];
+        s.api = (int) p.get("api");
+        s.env = &e;
+        s.r = &r;
+        s.plan_seed = p.seed;
+        s.size_regime = 0;
+        s.tag = std::string(s.d->name) + "/" + s.f->name + "/" + (s.api == API_FAMILY ? "family" : "isal") + "/endurance";
+        const AlgoDesc &d = *s.d;
+        e.poison_regs = true;
+        s.mgr = e.mem.alloc(d.mgr_size, 64, START_FLUSH, &e.hidden, "manager", R_OBJECT);
+        s.ctx_out = (uint64_t *) e.mem.alloc(8, 8, END_FLUSH, &e.hidden, "ctx_out slot", R_OUTPUT);
+        const int K = p.get("two_in_flight") ? 2 : 1;
+        s.cl.resize(K);
+        for (int i = 0; i < K; i++) {
+                Client &c = s.cl[i];
+                c.ref = RefHash(d.a);
+                c.ctx = e.mem.alloc(d.ctx_size, 64, MID, &e.hidden, "context", R_OBJECT, 64 * (size_t) (i % 5));
+                u32(c.ctx, d.off_error) = ISAL_HASH_CTX_ERROR_NONE;
+                u32(c.ctx, d.off_status) = ISAL_HASH_CTX_STS_COMPLETE;
+                c.user_tag = mix64(p.seed, 0x75e7 + (uint64_t) i);
+                u64(c.ctx, d.off_user) = c.user_tag;
+        }
+        void *sv[3] = { *d.disp_init, *d.disp_submit, *d.disp_flush };
+        if (s.api != API_FAMILY) {
+                *d.disp_init = s.f->init;
+                *d.disp_submit = s.f->submit;
+                *d.disp_flush = s.f->flush;
+        }
+        struct Restore {
+                const AlgoDesc &d;
+                void **sv;
+                ~Restore()
+                {
+                        *d.disp_init = sv[0];
+                        *d.disp_submit = sv[1];
+                        *d.disp_flush = sv[2];
+                }
+        } restore{ d, sv };
+        if (s.api == API_FAMILY)
+                e.call((std::string("_") + d.name + "_ctx_mgr_init_" + s.f->name).c_str(), s.f->init, { U(s.mgr) });
+        else
+                e.call((std::string("isal_") + d.name + "_ctx_mgr_init").c_str(), d.isal_init, { U(s.mgr) });
+        const uint64_t goal = (1ull << 28) + 3 * d.block + 17;
+        static std::map<int, RefHash> refs;
+        auto it = refs.find((int) d.a);
+        if (it == refs.end())
+                it = refs.emplace((int) d.a, long_reference(d.a, goal)).first;
+        const uint64_t target = (uint64_t) p.get("endure_gib") << 30;
+        uint64_t pushed = 0, rep = 0;
+        while (pushed < target) {
+                for (int i = 0; i < K; i++) {
+                        Client &c = s.cl[i];
+                        e.op_index = (int) rep;
+                        c.ref = it->second;
+                        c.total = goal;
+                        c.started = true;
+                        c.complete = false;
+                        c.last_sent = true;
+                        c.nseg++;
+                        const uint8_t *buf = g_window + WIN_PERIOD * ((rep * 2 + (uint64_t) i) % 8); // same content at a different address
+                        e.ev(mix64(OP_LONG, rep * 2 + (uint64_t) i));
+                        int rc;
+                        uint64_t ret = do_submit(s, c.ctx, buf, (uint32_t) goal, ISAL_HASH_ENTIRE, &rc);
+                        e.obs(0x11, (uint64_t) rc);
+                        if (s.api == API_ISAL && rc != 0)
+                                e.violation("C01", "valid-call-failed", "C01/valid-call-failed/" + s.tag, strfmt("%s: valid submit returned %d", s.tag.c_str(), rc));
+                        if (ret == (uint64_t) (uintptr_t) c.ctx)
+                                handed_back(s, i, "its own submit", false);
+                        else {
+                                c.in_flight = true;
+                                s.inflight++;
+                                process_return(s, ret, i, "submit");
+                        }
+                        post_call_invariants(s, "submit");
+                        pushed += goal;
+                }
+                op_flush(s, true);
+                for (int i = 0; i < K; i++)
+                        if (!s.cl[i].complete)
+                                e.violation("C06", "stranded", "C06/stranded/" + s.tag,
+                                            strfmt("%s: job %llu did not complete although the manager was drained", s.tag.c_str(), (unsigned long long) rep), false);
+                rep++;
+                r.cov.state(mix64((uint64_t) d.a * 16 + (uint64_t) (s.f - &d.fams[0]), pushed >> 30));
+        }
+        r.cov.hit(strfmt("probe_manager_lifetime_GiB_%lld", (long long) p.get("endure_gib")));
+        e.check_mem_all("end of run");
+}
+
 } // namespace
 
 Sim *make_hashmgr_sim() { return new HashMgrSim(); }
@@ -1275,3 +1401,10 @@ struct HashGiantSim : HashMgrSim {
 };
 } // namespace
 Sim *make_hashgiant_sim() { return new HashGiantSim(); }
+namespace {
+struct HashEndureSim : HashMgrSim {
+        const char *name() const override { return "hashendure"; }
+        Plan generate(uint64_t seed, const std::string &, bool, uint64_t idx) override { return generate_endure(seed, idx); }
+};
+} // namespace
+Sim *make_hashendure_sim() { return new HashEndureSim(); }
